@@ -344,8 +344,11 @@ func nestedBytes(n int) []byte {
 	return append(out, 0x05, 0x00)
 }
 
-func nestedTree(n int) *tnode {
-	t := prim(0, 5, nil)
+func nestedTree(n int) *tnode { return nestedTreeWith(n, prim(0, 5, nil)) }
+
+// nestedTreeWith wraps the given leaf in n SEQUENCEs
+func nestedTreeWith(n int, leaf *tnode) *tnode {
+	t := leaf
 	for i := 0; i < n; i++ {
 		t = cons(0, 16, t)
 	}
@@ -767,6 +770,14 @@ func genC13(c *Ctx) {
 				t := nestedTree(n)
 				c13Dump(c, "corpus-F34", []*tnode{t})
 				c13Parse(c, "corpus-F34", t.enc())
+				// the nesting limit next to EMPTY constructed leaves (which have no children to descend into)
+				for _, leaf := range []*tnode{cons(0, 16), cons(2, 0), cons(0, 17)} {
+					if n >= 1 {
+						t2 := nestedTreeWith(n-1, leaf)
+						c13Dump(c, "depth-limit-empty-leaf", []*tnode{t2})
+						c13Parse(c, "depth-limit-empty-leaf", t2.enc())
+					}
+				}
 			}
 		}
 	} else {
